@@ -8,8 +8,8 @@ CONSTANTS NMAX, MAXPTS, ALLPERM,
           PermKeys,     \* orders coded as 1000 a + b
           Shifts,       \* shifts coded as 1000 Q + 100 s1 + 10 s2 + s3
           Dedup         \* TRUE: the code; FALSE: repeated points are selected again (sensitivity self-test)
-VARIABLES kind, n, var, perm, pc, pts, mp, gnone, gsel, gsub
-vars == <<kind, n, var, perm, pc, pts, mp, gnone, gsel, gsub>>
+VARIABLES kind, n, var, perm, pc, pts, mp, gnone, gsel, gsub, goth
+vars == <<kind, n, var, perm, pc, pts, mp, gnone, gsel, gsub, goth>>
 DEN == 720                      \* multiple of Q n for n <= 6, Q <= 3 (and of 8, 9, 10, 12)
 None == Err("not evaluated")
 Meshes == {m \in (1..NMAX) \X (1..NMAX) \X (1..NMAX) : NPts(m) <= MAXPTS}
@@ -22,19 +22,22 @@ Init == /\ n \in Meshes
            \/ kind = "removed" /\ NPts(n) > 1 /\ var \in Picks(NPts(n)) /\ perm \in Orders(NPts(n) - 1)
            \/ kind = "dup" /\ var \in Picks(NPts(n)) /\ perm \in Orders(NPts(n) + 1)
            \/ kind = "shifted" /\ var \in Shifts /\ perm \in Orders(NPts(n))
-        /\ pc = "in" /\ pts = <<>> /\ mp = None /\ gnone = None /\ gsel = None /\ gsub = None
+        /\ pc = "in" /\ pts = <<>> /\ mp = None /\ gnone = None /\ gsel = None /\ gsub = None /\ goth = None
 Base == CASE kind = "complete" -> MeshSeq(n, DEN)
           [] kind = "removed"  -> RemoveAtIdx(MeshSeq(n, DEN), var)
           [] kind = "dup"      -> Append(MeshSeq(n, DEN), MeshSeq(n, DEN)[var])
           [] kind = "shifted"  -> ShiftedSeq(n, << (var \div 100) % 10, (var \div 10) % 10, var % 10 >>, var \div 1000, DEN)
 (* the coarser mesh used for the sub-mesh selection: halve the even directions *)
 Half == << IF n[1] % 2 = 0 THEN n[1] \div 2 ELSE n[1], IF n[2] % 2 = 0 THEN n[2] \div 2 ELSE n[2], IF n[3] % 2 = 0 THEN n[3] \div 2 ELSE n[3] >>
+(* a grid that is neither the mesh nor a divisor of it: one more point in direction 1, twice as fine in direction 3 *)
+Other == << n[1] + 1, n[2], 2 * n[3] >>
 Call == /\ pc = "in" /\ pc' = "done"
         /\ pts' = Permute(Base, perm)
         /\ mp' = GetMpGrid(Permute(Base, perm), DEN)
         /\ gnone' = GridFromKpointsV(Permute(Base, perm), NoGrid, DEN, Dedup)
         /\ gsel' = GridFromKpointsV(Permute(Base, perm), n, DEN, Dedup)
         /\ gsub' = GridFromKpointsV(Permute(Base, perm), Half, DEN, Dedup)
+        /\ goth' = GridFromKpointsV(Permute(Base, perm), Other, DEN, Dedup)
         /\ UNCHANGED <<kind, n, var, perm>>
 Next == Call
 Spec == Init /\ [][Next]_vars
@@ -57,4 +60,21 @@ SubmeshOnce == (Done /\ kind \in {"complete", "dup"}) => (gsub.err = "" /\ EachM
 (* whatever get_mp_grid returns contains every given point; the detected grid of grid_from_kpoints is complete *)
 ReturnedGridHoldsPoints == (Done /\ mp.err = "") => \A i \in 1..Len(pts) : OnGrid(pts[i], mp.val, DEN)
 ReturnedGridComplete == (Done /\ gnone.err = "") => IsCompleteMesh(pts, gnone.val, DEN)
+(* the status of the transcription is the status the property demands: a selection (or a detected grid) is returned
+   iff the points lying on that grid are the whole mesh, an incomplete mesh is rejected; every returned selection
+   names each mesh point exactly once.  The replay takes the expected status from these states and checks the value
+   returned by the real code against EachMeshPointOnce (any order, any copy of a repeated point) *)
+LcmT == LET L == LcmGrid(pts, DEN) IN << L[1], L[2], L[3] >>
+StatusIsProperty == Done =>
+     /\ (gsel.err = "") = SelectionDefined(pts, n, DEN)
+     /\ (gsub.err = "") = SelectionDefined(pts, Half, DEN)
+     /\ (goth.err = "") = SelectionDefined(pts, Other, DEN)
+     /\ (gnone.err = "") = IsSomeMesh(pts, DEN)
+     /\ (gnone.err = "" => gnone.val = LcmT)
+SelectionsOnce == Done =>
+     /\ (gsel.err = "" => EachMeshPointOnce(gsel.val, pts, n, DEN))
+     /\ (gsub.err = "" => EachMeshPointOnce(gsub.val, pts, Half, DEN))
+     /\ (goth.err = "" => EachMeshPointOnce(goth.val, pts, Other, DEN))
+(* a duplicate-free list that is a Gamma-centred mesh is detected by get_mp_grid (in any order) *)
+MpDetectsAnyMesh == (Done /\ NoDuplicates(pts) /\ IsSomeMesh(pts, DEN)) => mp = Ok(LcmT)
 =============================================================================
